@@ -35,7 +35,10 @@ AMP = "http://a/q?x=1&y="
 T0 = datetime.datetime(2012, 3, 4, 5, 6, 7)
 
 TEXTS = ["x", 'a"b', "a<b>c", "a&b", "a&amp;b", "tail\\", "a\\nb", "l1\nl2", "é漢", "<b>bold</b>", "]]>", "a>b",
-         "<br/>", "&#60;", "a'b"]
+         "<br/>", "&#60;", "a'b",
+         # backslash sequences that Graphviz's escString substitution gives a meaning to (\N node name, \G graph
+         # name, \E edge name, \\ one backslash, \l \r line breaks)
+         "C:\\New\\Games\\Easy", "\\\\server\\share", "a\\lb\\rc"]
 POSITIONS = ["label", "value", "uri-value", "attr-name", "identifier", "bundle-id", "qname-value"]
 
 
@@ -200,6 +203,37 @@ def parse_html_label(label):
     return ET.fromstring("<r>" + label + "</r>")
 
 
+SUBST = "\x00"
+
+
+def esc_decode(s, html):
+    """what Graphviz shows for a label / URL text after its escString pass (measured on dot 2.43: in HTML-like
+    labels and in URLs \\\\ is one backslash and \\N \\G \\E \\T \\H are replaced by object names; in plain labels
+    \\n \\l \\r are line breaks as well; any other backslash stays).  A substitution is marked with NUL."""
+    if s is None:
+        return None
+    out, i = [], 0
+    while i < len(s):
+        c = s[i]
+        if c == "\\" and i + 1 < len(s):
+            n = s[i + 1]
+            if n == "\\":
+                out.append("\\")
+                i += 2
+                continue
+            if n in "NGETH":
+                out.append(SUBST)
+                i += 2
+                continue
+            if not html and n in "nlr":
+                out.append("\n")
+                i += 2
+                continue
+        out.append(c)
+        i += 1
+    return "".join(out)
+
+
 def flat_text(el):
     return "".join(el.itertext())
 
@@ -315,17 +349,17 @@ class C15(spec.Spec):
         # clusters
         for c in g["clusters"]:
             if c.get("url") is not None:
-                c["url"] = c["url"].replace("\\\\", "\\")
+                c["url"] = esc_decode(c["url"], True)
         for a in nodes.values():
             if "URL" in a:
-                a["URL"] = a["URL"].replace("\\\\", "\\")
+                a["URL"] = esc_decode(a["URL"], True)
         got_clusters = Counter(c["url"] for c in g["clusters"])
         if got_clusters != exp["clusters"]:
             probs.append(("clusters", "clusters %r, expected %r" % (dict(got_clusters), dict(exp["clusters"]))))
             return probs
         for c in g["clusters"]:
             want = exp["bundle_labels"].get(c["url"])
-            if want is not None and "\\" not in want and c["label"] != want:
+            if want is not None and esc_decode(c["label"], False) != want.replace("\n", "\n"):
                 probs.append(("cluster-label", "cluster label %r, expected %r" % (c["label"], want)))
         member = {}
         for c in g["clusters"]:
@@ -394,7 +428,7 @@ class C15(spec.Spec):
                         root = parse_html_label(lab)
                         kids = list(root)
                         if [k.tag for k in kids] == ["br", "font"] and not list(kids[1]) and \
-                                (root.text or "") in e["labels"] and (kids[1].text or "") == e["id"] and \
+                                esc_decode(root.text or "", True) in e["labels"] and esc_decode(kids[1].text or "", True) == e["id"] and \
                                 not (kids[0].tail or "").strip() and not (kids[1].tail or "").strip():
                             ok = True
                     except ET.ParseError:
@@ -404,7 +438,7 @@ class C15(spec.Spec):
                             e["uri"], lab, e["labels"], e["id"])))
                 else:
                     want = e["id"]
-                    if "\\" not in want and lab != want:
+                    if esc_decode(lab, False) != want:
                         probs.append(("element-label", "label of %s is %r, expected %r" % (e["uri"], lab, want)))
         # edges
         url_of = {}
@@ -554,7 +588,8 @@ class C15(spec.Spec):
                 return None
             if set(tds[0].attrib) - {"align", "href"} or set(tds[1].attrib) - {"align", "href"}:
                 return None
-            rows.append((_ws(tds[0].attrib.get("href")), tds[0].text or "", _ws(tds[1].attrib.get("href")), tds[1].text or ""))
+            rows.append((esc_decode(_ws(tds[0].attrib.get("href")), True), esc_decode(tds[0].text or "", True),
+                         esc_decode(_ws(tds[1].attrib.get("href")), True), esc_decode(tds[1].text or "", True)))
         return tuple(sorted(rows, key=repr))
 
     def ops(self, hist):
